@@ -76,19 +76,19 @@ def template_for(p, idx, rng=None):
     if rng is not None and len(plain) >= 2 and not groups and rng.random() < 0.15:
         return Dot(items[:-1], items[-1])        # a dotted template (a b . c)
     for g, names in groups.items():
-        style = 0 if rng is None else rng.randrange(4)
-        if len(names) == 1 and style != 1:
+        style = 0 if rng is None else rng.randrange(5)
+        if style == 4:
+            # a dotted sub-template under the ellipsis: (k . v) ... or (k v1 . v2) ...
+            items += [Dot([S("k")] + names[:-1], names[-1]), ELL]
+        elif style == 3:
+            items += [Vec([S("k")] + names), ELL]
+        elif len(names) == 1 and style != 1:
             items += [names[0], ELL]
         elif style == 0 or style == 1:
             items += [list(names), ELL]
-        elif style == 2:
+        else:
             for nme in names:
                 items += [nme, ELL]
-        elif style == 3 and (rng is None or rng.random() < 0.5):
-            items += [Vec([S("k")] + names), ELL]
-        else:
-            # a dotted sub-template under the ellipsis: (k . v) ... or (v1 . v2) ...
-            items += [Dot([S("k")] + names[:-1], names[-1]), ELL]
     return items
 
 
